@@ -1,6 +1,6 @@
 (* C17 — shape of the generated cases and the two executable verdicts. No proofs. *)
 From VLib Require Import CaseLib.
-From C17 Require Import Model ModelSeal.
+From C17 Require Import Model ModelSeal ModelConc.
 
 Definition N_list_eqb := list_eqb N.eqb.
 Definition nat_list_eqb := list_eqb Nat.eqb.
@@ -293,6 +293,87 @@ Definition fdump_spec_ok (k : list (meta * N)) (d : fdump) : bool :=
 
 Definition group_toks : list N := [5; 6; 7; 9]%N.   (* tokens of the group field g in the harness table *)
 
+(* ------------------------------------------------------------------ concurrent deliveries *)
+
+(* small concurrent groups: the step model (ModelConc) under the schedule the driver drew must finish
+   and predict the order-insensitive observables of the real fraction *)
+Definition conc_agrees (qs : list (list cbulk)) (sched : list nat) (o : obsv) : bool :=
+  let s := conc_run sched (conc_init qs) in
+  all_done s && obs_agrees group_toks [cc_a s] o.
+
+(* --- stress rounds: every delivery is a RANGE [lo, hi) of document numbers of the round (document
+   x has the ID the driver derives from the round and x, the all-token, and the token k:a iff
+   x mod 5 = 0), so that bulks of tens of thousands of documents stay small terms *)
+
+(* first writer wins on ranges: the parts of [lo, hi) not covered yet *)
+Fixpoint sub_iv (lo hi : N) (cov : list (N * N)) : list (N * N) :=
+  match cov with
+  | [] => if N.ltb lo hi then [(lo, hi)] else []
+  | (a, b) :: r => sub_iv lo (N.min hi a) r ++ sub_iv (N.max lo b) hi r
+  end.
+Definition iv_size (l : list (N * N)) : N := fold_right (fun p s => (snd p - fst p + s)%N) 0%N l.
+Definition iv_mult5 (l : list (N * N)) : N :=
+  fold_right (fun p s => ((snd p + 4) / 5 - (fst p + 4) / 5 + s)%N) 0%N l.
+(* the deliveries in list order: covered ranges, accepted ranges of every delivery *)
+Definition ranges_run (rs : list (N * N)) : list (N * N) * list (list (N * N)) :=
+  fold_left (fun st r => let fresh := sub_iv (fst r) (snd r) (fst st) in (fresh ++ fst st, snd st ++ [fresh]))
+            rs ([], []).
+
+(* reference, point by point *)
+Definition count_upto (n : N) (P : N -> bool) : N :=
+  snd (N.iter n (fun st : N * N => ((fst st + 1)%N, if P (fst st) then (snd st + 1)%N else snd st)) (0%N, 0%N)).
+Definition covered (rs : list (N * N)) (x : N) : bool :=
+  existsb (fun r => N.leb (fst r) x && N.ltb x (snd r)) rs.
+Definition ranges_top (rs : list (N * N)) : N := fold_right (fun r m => N.max (snd r) m) 0%N rs.
+Definition distinct_pts (rs : list (N * N)) : N := count_upto (ranges_top rs) (covered rs).
+Definition distinct_mult5 (rs : list (N * N)) : N :=
+  count_upto (ranges_top rs) (fun x => covered rs x && N.eqb (x mod 5) 0).
+
+(* DocsPositions.SetMultiple called by one goroutine per delivery at the same moment (unit level) *)
+Record sobs := mkSObs {
+  so_acc : N;      (* IDs returned as added, all calls together *)
+  so_once : N;     (* IDs returned by exactly one call *)
+  so_multi : N;    (* IDs returned by more than one call *)
+  so_never : N;    (* IDs returned by no call *)
+  so_pos : N;      (* entries of the map afterwards *)
+  so_bad : N       (* IDs whose stored position is not the position given by a call that got the ID back *)
+}.
+(* the same deliveries through FracManager.Append on a fraction with several index workers;
+   numbers are the growth during the round *)
+Record pobs := mkPObs {
+  po_lids : N;     (* new LIDs = IDs accepted for indexing, all deliveries together *)
+  po_duplids : N;  (* IDs of the round holding more than one LID *)
+  po_pos : N;      (* new entries of DocsPositions *)
+  po_total : N;    (* Info.DocsTotal *)
+  po_all : N;      (* LIDs of the all-token *)
+  po_search : N;   (* Total of the search `*` *)
+  po_ka : N;       (* Total of the search k:"a" *)
+  po_probes : N; po_found : N   (* IDs fetched / of them found with the document's bytes *)
+}.
+
+Definition sobs_agrees (rs : list (N * N)) (o : sobs) : bool :=
+  let acc := snd (ranges_run rs) in
+  let d := fold_right (fun l s => (iv_size l + s)%N) 0%N acc in
+  N.eqb (so_acc o) d && N.eqb (so_once o) d && N.eqb (so_multi o) 0 && N.eqb (so_never o) 0
+  && N.eqb (so_pos o) (iv_size (fst (ranges_run rs))) && N.eqb (so_bad o) 0.
+Definition sobs_spec_ok (rs : list (N * N)) (o : sobs) : bool :=
+  let d := distinct_pts rs in
+  N.eqb (so_acc o) d && N.eqb (so_once o) d && N.eqb (so_multi o) 0 && N.eqb (so_never o) 0
+  && N.eqb (so_pos o) d && N.eqb (so_bad o) 0.
+
+Definition pobs_agrees (rs : list (N * N)) (o : pobs) : bool :=
+  let acc := snd (ranges_run rs) in
+  let d := fold_right (fun l s => (iv_size l + s)%N) 0%N acc in
+  let d5 := fold_right (fun l s => (iv_mult5 l + s)%N) 0%N acc in
+  N.eqb (po_lids o) d && N.eqb (po_duplids o) 0 && N.eqb (po_pos o) (iv_size (fst (ranges_run rs)))
+  && N.eqb (po_total o) d && N.eqb (po_all o) d && N.eqb (po_search o) d && N.eqb (po_ka o) d5
+  && N.eqb (po_found o) (po_probes o).
+Definition pobs_spec_ok (rs : list (N * N)) (o : pobs) : bool :=
+  let d := distinct_pts rs in
+  N.eqb (po_lids o) d && N.eqb (po_duplids o) 0 && N.eqb (po_pos o) d
+  && N.eqb (po_total o) d && N.eqb (po_all o) d && N.eqb (po_search o) d && N.eqb (po_ka o) (distinct_mult5 rs)
+  && N.eqb (po_found o) (po_probes o).
+
 Inductive case :=
 (* real collector: Init blk, AppendMeta ms, [Filter app], GroupLIDsByToken first.. *)
 | CColl (blk : nat) (ms : list meta) (dofilter : bool) (app : list id) (first : nat) (impl : collout)
@@ -302,7 +383,17 @@ Inductive case :=
 (* history through the real store with seal, reload and replay predicted by the model
    (ModelSeal.run_store2): dumps = (after k steps, index j among the fractions holding documents,
    copy of that fraction's tables), observations after the given numbers of steps *)
-| CHist2 (cfg : sealcfg) (h : list step) (dumps : list (nat * nat * fdump)) (obs : list (nat * obsv)).
+| CHist2 (cfg : sealcfg) (h : list step) (dumps : list (nat * nat * fdump)) (obs : list (nat * obsv))
+(* bulks delivered concurrently to one active fraction with several index workers: qs = the bulks as
+   the model's workers receive them, sched = the interleaving of atomic steps the driver drew;
+   observation of the real store afterwards (order-insensitive observables, identical bytes) *)
+| CConc (qs : list (list cbulk)) (sched : list nat) (o : obsv)
+(* g goroutines call the real DocsPositions.SetMultiple at the same moment, one per range of IDs;
+   every round on a fresh map *)
+| CSetStress (rounds : list (list (N * N) * sobs))
+(* the same deliveries released together into FracManager.Append, `workers` index workers; rounds
+   on one fraction with fresh IDs each *)
+| CPipeStress (workers : nat) (rounds : list (list (N * N) * pobs)).
 
 Definition case_agrees (c : case) : bool :=
   match c with
@@ -318,6 +409,9 @@ Definition case_agrees (c : case) : bool :=
       forallb (fun x => fdump_agrees (nth (snd (fst x)) (nonempty2 (run_store2 cfg (firstn (fst (fst x)) h)))
                                           (FA active_empty [])) (snd x)) dumps
       && forallb (fun p => obs_agrees2 group_toks (run_store2 cfg (firstn (fst p) h)) (snd p)) obs
+  | CConc qs sched o => conc_agrees qs sched o
+  | CSetStress rounds => forallb (fun r => sobs_agrees (fst r) (snd r)) rounds
+  | CPipeStress _ rounds => forallb (fun r => pobs_agrees (fst r) (snd r)) rounds
   end.
 
 Definition case_spec_ok (c : case) : bool :=
@@ -334,6 +428,9 @@ Definition case_spec_ok (c : case) : bool :=
   | CHist2 cfg h dumps obs =>
       forallb (fun x => fdump_spec_ok (nth (snd (fst x)) (ref_run (firstn (fst (fst x)) h)) []) (snd x)) dumps
       && forallb (fun p => obs_spec_ok group_toks (ref_run (firstn (fst p) h)) (snd p)) obs
+  | CConc qs sched o => obs_spec_ok group_toks (ref_run [SConc (concat qs)]) o
+  | CSetStress rounds => forallb (fun r => sobs_spec_ok (fst r) (snd r)) rounds
+  | CPipeStress _ rounds => forallb (fun r => pobs_spec_ok (fst r) (snd r)) rounds
   end.
 
 Definition diff_indices (l : list case) : list nat := bad_indices (fun c => negb (case_agrees c)) l.
